@@ -87,3 +87,23 @@ pub fn corpus() -> Vec<Named> {
     v.push(coxeter("Coxeter I2(7)", &[&[7]], 14));
     v
 }
+
+/// Random presentations with 2-3 generators and 2-4 relators of length 2-7: mostly small groups
+/// with many coincidences (hostile to coset enumeration), some infinite.
+pub fn random_presentations(seed: u64, count: usize) -> Vec<Pres> {
+    let mut rng = crate::rng::Rng::stream(seed, 0x9c0);
+    (0..count)
+        .map(|_| {
+            let n = 2 + rng.below(2);
+            let nr = 2 + rng.below(3);
+            let rels: Vec<Word> = (0..nr)
+                .map(|_| {
+                    let len = 2 + rng.below(6);
+                    let w: Word = (0..len).map(|_| { let g = rng.range(1, n as i64); if rng.chance(1, 2) { g } else { -g } }).collect();
+                    crate::oracle::groups::reduce(&w)
+                })
+                .collect();
+            Pres { ngens: n, rels }
+        })
+        .collect()
+}
